@@ -23,7 +23,7 @@ STATE_MEASURE = "distinct (n, set of revealed coalitions) at which the wrapper w
 REAL_VS_STUB = {"real": ["icg_gym_linear.ICG_Gym_Linear", "icg_gym.ICG_Gym", "bounds", "normalize"], "stub": [],
                 "seams": ["legacy global numpy RNG set from the tape before every step (tie-breaks)"]}
 ASSUMPTIONS = ["the inner environment's own outputs are judged by the C09 oracle in the same run"]
-PROBES = ["size_exhausted_masked", "tie_break_among_3plus", "reset_mid_episode", "done_reached", "n6"]
+PROBES = ["large_n_mode", "second_environment_same_process", "initial_knowledge_beyond_minimal", "size_exhausted_masked", "tie_break_among_3plus", "reset_mid_episode", "done_reached", "n6"]
 TIERS = {
     "quick": {"runs": 10000, "wall": 40, "batch": 8, "shrink_s": 40},
     "thorough": {"runs": 2000000, "wall": 900, "batch": 16, "shrink_s": 120},
@@ -62,8 +62,61 @@ def check_linear(sim: Sim, lin, env, n: int, explorable: list[int], revealed: se
     return exp_obs
 
 
+def run_large(sim: Sim) -> None:
+    """Beyond the stated n = 3..6: n = 7..11 with the no-op bound computer (cheap), one size class stepped
+    until it is exhausted, so that size classes with hundreds of coalitions are crossed completely."""
+    from incomplete_cooperative.icg_gym_linear import ICG_Gym_Linear
+    n = 7 + sim.choose(5, "large-n")
+    rng = sim.np_rng("large-values")
+    values = games.sa_closure(rng.integers(0, 5, 2 ** n).astype(np.float64), n) if n <= 8 else \
+        np.array([games.popcount(s) ** 2 for s in range(2 ** n)], dtype=np.float64) + rng.integers(0, 2, 2 ** n) * 0.0
+    gaps = games.gap_functions()
+    sim.config.update(n=n, mode="large", computer=None)
+    sim.probe("large_n_mode")
+    with sim.guard("C16.construction_raised"):
+        env = em.make_env(n, None, em.ListSource([values], n), gaps["l1_norm"], None)
+        lin = ICG_Gym_Linear(env)
+    explorable = games.explorable_ids(n)
+    sizes = np.array([games.popcount(e) for e in explorable])
+    index_of = {e: i for i, e in enumerate(explorable)}
+    unknown = np.ones(len(explorable), dtype=bool)
+    ctx = {"n": n, "mode": "large"}
+    k = None
+    for step in range(60 + sim.choose(500, "large-steps")):
+        counts = np.bincount(sizes[unknown], minlength=n)
+        allowed = [x for x in range(n) if counts[x] > 0]
+        sim.checked()
+        mask = np.array(lin.action_masks()).astype(bool)
+        if mask.shape != (n,) or mask.tolist() != [counts[x] > 0 for x in range(n)]:
+            sim.fail("C16.mask_is_not_some_unknown_coalition_of_that_size",
+                     {**ctx, "step": step, "unknown_per_size": counts.tolist(), "got": mask.astype(int).tolist()})
+        if not allowed:
+            break
+        if k not in allowed or sim.flip(1, 60, "switch-size"):
+            k = sim.pick(allowed, "size")
+        np.random.seed(sim.choose(2 ** 32, "tie-break-stream"))
+        known_before = np.array(env.incomplete_game.are_values_known()).copy()
+        sim.op("step", k)
+        with sim.guard("C16.step_raised"):
+            obs, reward, done, trunc, info = lin.step(k)
+        newly = np.nonzero(np.array(env.incomplete_game.are_values_known()) & ~known_before)[0]
+        if len(newly) != 1 or games.popcount(int(newly[0])) != k or int(newly[0]) not in index_of \
+                or not unknown[index_of[int(newly[0])]] or info.get("chosen_coalition") != int(newly[0]):
+            sim.fail("C16.step_did_not_reveal_exactly_one_coalition", {**ctx, "size": k, "newly_known": newly.tolist()})
+        unknown[index_of[int(newly[0])]] = False
+        inner = np.array(env.state, dtype=np.float64)
+        exp_obs = np.bincount(sizes, weights=inner, minlength=n)[:n]
+        if np.array(obs).shape != (n,) or not np.allclose(np.array(obs, dtype=np.float64), exp_obs, rtol=1e-10, atol=1e-10):
+            sim.fail("C16.returned_observation_is_not_per_size_sum", {**ctx, "step": step})
+        if counts[k] - 1 in (255, 256, 257):
+            sim.probe("crossed_256_unknown_in_one_size")
+    sim.state(n, "large", int(unknown.sum()))
+
+
 def run(sim: Sim) -> None:
     from incomplete_cooperative.icg_gym_linear import ICG_Gym_Linear
+    if sim.choose(24 if sim.tier == "quick" else 12, "large-mode") == 1:
+        return run_large(sim)
     n = 3 + sim.choose(4, "n")
     if n == 6:
         sim.probe("n6")
@@ -72,10 +125,26 @@ def run(sim: Sim) -> None:
         sim.pick(["superadditive_cached"] + (["sam_apx_1"] if cls == "SAM" else []), "computer")
     gaps = games.gap_functions()
     gap_name = sim.pick(sorted(gaps) if n < 6 else ["l1_norm", "linf_norm", "l2_norm"], "gap")
-    explorable = games.explorable_ids(n)
-    budget = None if not sim.flip(1, 3, "budget?") else 1 + sim.choose(len(explorable), "budget")
-    exact = False
+    all_expl = games.explorable_ids(n)
+    budget = None if not sim.flip(1, 3, "budget?") else 1 + sim.choose(len(all_expl), "budget")
     prelude.warm_process(sim)
+    n_envs = 1 + sim.choose(2, "environments-in-this-process")
+    n_extra = sim.choose(min(4, len(all_expl) - 1), "initially-known-extras") if sim.flip(1, 2, "extras?") else 0
+    for e_idx in range(n_envs):
+        # environments of one process: same n, equally many initially known coalitions, possibly different ones
+        extras = sim.shuffled(all_expl, "which-extras")[:n_extra]
+        if n_extra:
+            sim.probe("initial_knowledge_beyond_minimal")
+        if e_idx:
+            sim.probe("second_environment_same_process")
+        _session(sim, ICG_Gym_Linear, n, cls, comp_name, gaps, gap_name, budget, sorted(extras), e_idx)
+
+
+def _session(sim: Sim, ICG_Gym_Linear, n, cls, comp_name, gaps, gap_name, budget, extras, e_idx) -> None:
+    explorable = [e for e in games.explorable_ids(n) if e not in extras]
+    if budget is not None:
+        budget = min(budget, len(explorable))
+    exact = False
     with sim.guard("C16.construction_raised"):
         if sim.flip(1, 3, "registry"):
             source = em.RegistrySource(sim.pick(KEYS[cls], "key"), n, sim.choose(2 ** 32, "seed"))
@@ -83,9 +152,9 @@ def run(sim: Sim) -> None:
             drawn = [games.draw_game(sim, n, cls) for _ in range(1 + sim.choose(3, "n-games"))]
             exact = all(e for _, e in drawn)
             source = em.ListSource([v for v, _ in drawn], n)
-        env = em.make_env(n, comp_name, source, gaps[gap_name], budget)
+        env = em.make_env(n, comp_name, source, gaps[gap_name], budget, initial_extra=extras)
         lin = ICG_Gym_Linear(env)
-    ctx = {"n": n, "computer": comp_name, "gap": gap_name, "budget": budget}
+    ctx = {"n": n, "computer": comp_name, "gap": gap_name, "budget": budget, "initially_known_extras": extras, "environment": e_idx}
     sim.config.update(ctx)
     revealed_actions: list[int] = []
     steps = 0
@@ -109,7 +178,7 @@ def run(sim: Sim) -> None:
             exp_obs = check_linear(sim, lin, env, n, explorable, set(), ctx)
             if np.array(obs).shape != (n,) or not np.allclose(np.array(obs, dtype=np.float64), exp_obs, atol=1e-12):
                 sim.fail("C16.reset_observation", {**ctx, "got": np.array(obs).tolist()})
-            em.check_env(sim, env, n, comp_name, gaps[gap_name], hidden, revealed_actions, steps, budget, True, exact, "C16.inner")
+            em.check_env(sim, env, n, comp_name, gaps[gap_name], hidden, revealed_actions, steps, budget, True, exact, "C16.inner", extras=extras)
             continue
         k = sim.pick(allowed, "size")
         cands = [a for a, e in enumerate(explorable) if games.popcount(e) == k and e not in revealed]
@@ -141,7 +210,7 @@ def run(sim: Sim) -> None:
                 or np.float64(lin.reward).tobytes() != np.float64(env.reward).tobytes() or bool(lin.done) != bool(env.done):
             sim.fail("C16.reward_or_done_differs_from_inner_environment",
                      {**ctx, "reward": float(reward), "inner_reward": float(env.reward), "done": bool(done), "inner_done": bool(env.done)})
-        em.check_env(sim, env, n, comp_name, gaps[gap_name], hidden, revealed_actions, steps, budget, True, exact, "C16.inner")
+        em.check_env(sim, env, n, comp_name, gaps[gap_name], hidden, revealed_actions, steps, budget, True, exact, "C16.inner", extras=extras)
         exp_obs = check_linear(sim, lin, env, n, explorable, {explorable[x] for x in revealed_actions}, ctx)
         if np.array(obs).shape != (n,) or not np.allclose(np.array(obs, dtype=np.float64), exp_obs, rtol=1e-12, atol=1e-12):
             sim.fail("C16.returned_observation_is_not_per_size_sum", {**ctx, "got": np.array(obs).tolist(), "expected": exp_obs.tolist()})
